@@ -30,7 +30,14 @@ var lockShapes = []lockReq{
 	{"R(a,b)W(a)", command.Accounts{Read: []string{"a", "b"}, Write: []string{"a"}}},
 	{"R(a,a)", command.Accounts{Read: []string{"a", "a"}}},
 	{"R(a,a,b)W(b,b)", command.Accounts{Read: []string{"a", "a", "b"}, Write: []string{"b", "b"}}},
+	// read sets in the other order, and a reader of b alone: what happens at a release may depend on which account of the
+	// set is looked at last
+	{"R(b)", command.Accounts{Read: []string{"b"}}},
+	{"R(b,a)", command.Accounts{Read: []string{"b", "a"}}},
 }
+
+// dependentShapes: the shapes the dependent scenarios range over
+var dependentShapes = []int{0, 1, 2, 3, 4, 5, 9, 10}
 
 func conflicts(x, y command.Accounts) bool {
 	in := func(l []string, s string) bool {
@@ -297,20 +304,20 @@ func planC15() []planItem {
 		out = append(out, planItem{register(barrierScenario(fmt.Sprintf("barrier-%v", ws), ws)), 3, 4})
 	}
 	// a request blocked by one holder must not keep back a request that only waited for another holder
-	for h1 := 0; h1 < 6; h1++ {
-		for h2 := 0; h2 < 6; h2++ {
+	for _, h1 := range dependentShapes {
+		for _, h2 := range dependentShapes {
 			if conflicts(lockShapes[h1].Acc, lockShapes[h2].Acc) {
 				continue
 			}
-			for b := 0; b < 6; b++ {
+			for _, b := range dependentShapes {
 				if !conflicts(lockShapes[b].Acc, lockShapes[h1].Acc) {
 					continue
 				}
-				for x := 0; x < 6; x++ {
+				for _, x := range dependentShapes {
 					if !conflicts(lockShapes[x].Acc, lockShapes[h2].Acc) || conflicts(lockShapes[x].Acc, lockShapes[h1].Acc) {
 						continue
 					}
-					out = append(out, planItem{register(dependentScenario(fmt.Sprintf("dependent-%d%d%d%d", h1, h2, b, x), h1, h2, b, x)), 2, 3})
+					out = append(out, planItem{register(dependentScenario(fmt.Sprintf("dependent-%d.%d.%d.%d", h1, h2, b, x), h1, h2, b, x)), 2, 3})
 				}
 			}
 		}
